@@ -537,12 +537,16 @@ def resolve_strategy_inline_recurse(path, base, decisions):
         if not d.conflict:
             decisions.decisions.append(d)
             continue
+        if d.common_path != ('cells',):
+            # Conflicts from inside a cell are passed on as they are (one
+            # side's diff is empty when that side deleted the cell)
+            decisions.decisions.append(d)
+            continue
         assert d.local_diff and d.remote_diff
         laname, lpname = chunk_typename(d.local_diff)
         raname, rpname = chunk_typename(d.remote_diff)
         chunktype = laname + lpname + "/" + raname + rpname
-        if (chunktype not in ('AR/A', 'A/AR', 'A/A', 'AR/AR') or 
-                d.common_path != ('cells',)):
+        if chunktype not in ('AR/A', 'A/AR', 'A/A', 'AR/AR'):
             decisions.decisions.append(d)
             continue
         if d.get('similar_insert', None) is None:
